@@ -433,6 +433,12 @@ Definition run_case (c : hh_case) : Z :=
   run_from (ni w) (ni d) (ni L) (bucket_of bm) (float_default_thr phi)
            (init_regs (ni L)) prog 0.
 Definition check_case (c : hh_case) : bool := run_case c =? -1.
+(* the observed bucket map stays below width: the hypothesis `bucket r k < width` of the theorems, decided for the
+   instance the runner executes (HHRunnerProofs.bucket_of_lt) *)
+Definition cols_ok (w : nat) (m : list (list int * list int)) : bool :=
+  (0 <? w)%nat && forallb (fun p => forallb (fun c => (ni c <? w)%nat) (snd p)) m.
+Definition check_case_strict (c : hh_case) : bool :=
+  let '(w, d, L, phi, bm, prog) := c in cols_ok (ni w) bm && check_case c.
 Definition show_case (c : hh_case) (idx : Z) :=
   let '(w, d, L, phi, bm, prog) := c in
   run_show (ni w) (ni d) (ni L) (bucket_of bm) (float_default_thr phi)
